@@ -447,6 +447,9 @@ func (x *Exec) checkRun(rec *StepRecord) {
 			dir := m.Pkgs[pi].Dir
 			if !rec.Executed[ip] {
 				for _, d := range changed {
+					if DiffPath(d) == "gengo.sum" {
+						continue // (lies in the directory of a package in the module root; governed by T1)
+					}
 					if filepath.Clean(filepath.Dir(DiffPath(d))) == filepath.Clean(dir) && !editPaths[DiffPath(d)] {
 						x.violate("C07", "T3", "skipped-package-modified", d, nil)
 					}
